@@ -162,7 +162,8 @@ def part_history_switches():
                        ('SameCastShortcut = FALSE/SameCastShortcut = TRUE', 'HistoryIndependent'),
                        ('DerivedByIdentity = TRUE/DerivedByIdentity = FALSE', 'HistoryIndependent'),
                        ('GuessEachTime = TRUE/GuessEachTime = FALSE', 'HistoryIndependent'), ('CountLive = TRUE/CountLive = FALSE', 'NoStaleCount'),
-                       ('LabelLive = TRUE/LabelLive = FALSE', 'HistoryIndependent'), ('PayloadLive = TRUE/PayloadLive = FALSE', 'HistoryIndependent')):
+                       ('LabelLive = TRUE/LabelLive = FALSE', 'HistoryIndependent'), ('PayloadLive = TRUE/PayloadLive = FALSE', 'HistoryIndependent'),
+                       ('FileIdFollowsHeader = TRUE/FileIdFollowsHeader = FALSE', 'HistoryIndependent')):
         d = tempfile.mkdtemp(prefix='stspec', dir='/tmp')
         try:
             for f in os.listdir(lib.SPEC):
